@@ -1,5 +1,130 @@
-(* C14 — placeholder while the pipeline is brought up *)
-From Coq Require Import String NArith Bool List.
+(* C14 — FRR mode: generated configuration.  Statements only; proofs in
+   Proofs/FrrP.v, FrrSortP.v.
+   [render S] (Model/FrrRender.v) is the AST of the text createConfig +
+   templateConfig produce for the session set S (None = createConfig fails);
+   [sem_out ft um c vrf peer route] / [sem_in] (Model/FrrSem.v) what FRR offers
+   to / accepts from that neighbor, for both readings ft, um of the two doubtful
+   points of FRR's semantics; [intended s route] what session s requests.
+
+   STATUS (see notes/frr.md): proved here for all inputs — inbound rejection,
+   originated networks, session parameters / activation, provenance of routers
+   and neighbors, independence of the semantics from sequence numbers, F15.
+   frr_perm (session order), F15.
+   NOT proved (time): frr_out_exact, lists_defined, property_lists_subset_allowed
+   as theorems; their statements are kept below as comments and they are
+   EVALUATED in Coq on every generated case on the AST parsed from the real text
+   (Corr/Run_Frr.v codes 3, 4) and by the Python oracle. *)
+From Coq Require Import String NArith Bool List Permutation Sorted.
 From Verif Require Import Model.FrrRender Model.FrrSem Proofs.FrrSortP Proofs.FrrP.
-Theorem C14_render_nil : render [] = Some (mk_frr [] []).
-Proof. exact render_nil. Qed.
+Import ListNotations.
+Open Scope string_scope.
+
+(* every route received from any rendered neighbor is rejected, whatever ft, um *)
+Theorem C14_frr_in_denied : forall ft um S c rs n route acc fell,
+  render S = Some c -> create_config S = Some rs -> in_out_distinct rs -> In n (all_nbrs rs) ->
+  eval_rm ft um c (rm_entries c (rm_in (nc_s n))) route acc fell = None.
+Proof. exact in_denied_rendered. Qed.
+
+(* the in-map of a neighbor is never its out-map *)
+Theorem C14_in_map_is_not_out_map : forall s, rm_in s <> rm_out s.
+Proof. exact rm_in_neq_out. Qed.
+
+(* session parameters and per-family activation on the rendered neighbor; the
+   route-maps it is activated with are always its own in / out maps *)
+Theorem C14_frr_params : forall asn n,
+  let s := nc_s n in let r := render_nbr asn n in
+  n_peer r = peer_tok s /\ n_iface r = nonempty (s_iface s) /\ n_asn r = asn_for s /\
+  n_multihop r = s_multihop s /\ n_port r = (if N.eqb (s_port s) 0 then None else Some (s_port s)) /\
+  n_timers r = (match s_keep s, s_hold s with Some k, Some h => Some ((k / second)%N, (h / second)%N) | _, _ => None end) /\
+  n_connect r = (match s_connect s with Some c => if N.eqb (c / second) 0 then None else Some (c / second)%N | None => None end) /\
+  n_password r = (if nonempty (s_password s) then Some (s_password s) else None) /\
+  n_src r = (match s_src s with Some a => if nonempty a then Some a else None | None => None end) /\
+  n_gr r = s_gr s /\ n_bfd r = (if nonempty (s_bfd s) then Some (s_bfd s) else None) /\
+  (forall x, n_act4 r = Some x -> x = (rm_in s, rm_out s)) /\
+  (forall x, n_act6 r = Some x -> x = (rm_in s, rm_out s)) /\
+  (s_disable_mp s = false -> n_act4 r = Some (rm_in s, rm_out s) /\ n_act6 r = Some (rm_in s, rm_out s)) /\
+  (s_disable_mp s = true -> nfam_of s = NF4 -> n_act4 r = Some (rm_in s, rm_out s) /\ n_act6 r = None) /\
+  (s_disable_mp s = true -> nfam_of s = NF6 -> n_act4 r = None /\ n_act6 r = Some (rm_in s, rm_out s)) /\
+  (s_disable_mp s = true -> nfam_of s = NFDual -> n_act4 r = None /\ n_act6 r = None).
+Proof. exact render_nbr_params. Qed.
+
+(* shape of the rendered configuration *)
+Theorem C14_render_shape : forall S c, render S = Some c ->
+  exists rs, create_config S = Some rs /\ routers c = map render_router rs /\ items c = number (filters_of rs) [].
+Proof. exact render_routers. Qed.
+
+Theorem C14_router_origin : forall S rs r, create_config S = Some rs -> In r rs ->
+  exists k, In k (map rkey S) /\ mk_router S k = Some r.
+Proof. exact create_config_router. Qed.
+
+(* a router originates exactly the union of the prefixes requested on its
+   sessions, per family, sorted, without duplicates; each of its neighbors is
+   built from the sessions with one neighbor name *)
+Theorem C14_frr_networks_exact : forall S k r, mk_router S k = Some r ->
+  exists first rest, sessions_with rkey k S = first :: rest /\ rc_first r = first /\
+    exact_pfx_set (rc_p4 r) (map a_pfx (advs_afi A4 (flat_map s_advs (first :: rest)))) /\
+    exact_pfx_set (rc_p6 r) (map a_pfx (advs_afi A6 (flat_map s_advs (first :: rest)))) /\
+    forall n, In n (rc_nbrs r) ->
+      exists f more, sessions_with nname (nname f) (first :: rest) = f :: more /\
+                     mk_neighbor f (flat_map s_advs (f :: more)) = Some n.
+Proof. exact mk_router_spec. Qed.
+
+(* the semantics does not depend on the sequence numbers the counters assign *)
+Theorem C14_numbering_is_cosmetic : forall l cnt,
+  map strip (number l cnt) = map (fun x => strip (snd x)) l.
+Proof. exact number_strip. Qed.
+
+Theorem C14_sem_ignores_seq : forall its rs a name,
+  pl_lines (mk_frr (map strip its) rs) a name = pl_lines (mk_frr its rs) a name /\
+  rm_entries (mk_frr (map strip its) rs) name = rm_entries (mk_frr its rs) name.
+Proof. intros. split; [apply pl_lines_strip|apply rm_entries_strip]. Qed.
+
+(* the sorted sets the generator relies on: order-independent *)
+Theorem C14_sorted_keys_perm : forall l l', Permutation l l' -> sort_s l = sort_s l'.
+Proof. exact sort_s_perm. Qed.
+
+(* the configuration is a function of the SET of sessions: independent of the
+   creation order (= iteration order of the sessions map).  [wf_perm S]: one
+   session per neighbor name and router; the router key determines ASN / id /
+   VRF; a prefix text determines the prefix.  (Independence of the order of a
+   session's advertisement list is checked per case, Corr code 2, not proved.) *)
+Theorem C14_frr_perm : forall S S', wf_perm S -> Permutation S S' -> render S = render S'.
+Proof. exact render_perm. Qed.
+
+(* F15: frr_out_exact is REFUTED for a neighbor peered by interface with
+   DisableMP — the requested route is offered under no reading of the semantics *)
+Theorem C14_frr_out_exact_refuted : exists s route c,
+  render [s] = Some c /\ intended s route <> None /\
+  forall ft um, sem_out ft um c (s_vrf s) (peer_tok s) route = None.
+Proof.
+  exists f15_witness, (mk_pfx "2001:db8::1/128" {| pfam := F6; pbase := 42540766411282592856903984951653826561; plen := 128 |}).
+  eexists. split; [vm_compute; reflexivity|]. split; [vm_compute; discriminate|].
+  intros [|] [|]; vm_compute; reflexivity.
+Qed.
+
+(* frr_out_exact (NOT PROVED; evaluated on every case, code 3):
+     forall ft um S c s route, wf_sessions S -> render S = Some c -> In s S ->
+       ~ (s_iface s <> "" /\ s_disable_mp s = true) ->
+       attrs_equiv (sem_out ft um c (s_vrf s) (peer_tok s) route) (intended s route).
+   lists_defined (code 4): render S = Some c -> lists_defined_b c = true.
+   property_lists_subset_allowed: every prefix of a property list of a neighbor is in its allowed list. *)
+
+(* instances, all four readings of the semantics: repeated prefix with merged
+   communities, local preference, a second neighbor without advertisements *)
+Example C14_frr_out_exact_instance :
+  let p := mk_pfx "172.16.1.10/32" {| pfam := F4; pbase := 2886730010; plen := 32 |} in
+  let q := mk_pfx "fc00:f853:ccd:e799::/64" {| pfam := F6; pbase := 334965454937798799971759379190646833152; plen := 64 |} in
+  let s1 := mk_session 100 (Some "10.1.1.254") "" "10.2.2.254" true "" 200 "" None 179 None None None "" "" false false false
+              [mk_adv p 300 [(false, "65000:200"); (true, "64512:1:2")]; mk_adv p 300 [(false, "65000:100")]; mk_adv q 0 [(false, "65000:100")]] ("", "") in
+  let s2 := mk_session 100 (Some "10.1.1.254") "" "192.168.1.1" true "" 200 "" None 179 None None None "" "" false false true [] ("", "") in
+  match render [s2; s1] with
+  | Some c =>
+      lists_defined_b c = true /\ seqs_increasing_b c = true /\
+      forallb (fun fu => forallb (fun s => forallb (fun r =>
+        attrs_equiv_b (sem_out (fst fu) (snd fu) c (s_vrf s) (peer_tok s) r) (intended s r)) [p; q]) [s1; s2])
+        [(false, false); (false, true); (true, false); (true, true)] = true /\
+      sem_out false false c "" "10.2.2.254" p = Some (mk_attrs (Some 300%N) ["65000:100"; "65000:200"] ["64512:1:2"]) /\
+      sem_out true true c "" "192.168.1.1" p = None
+  | None => False
+  end.
+Proof. vm_compute. repeat split. Qed.
